@@ -506,13 +506,16 @@ async def call_helper(call, rd, wr, D_s, memo):
         else:
             fn = helpers.discover()[0][h][0]
             res = await fn(rd, wr, D_s)
-    except TimeoutError:
+    except TimeoutError as ex:
+        memo["exc"] = ex
         return dict({"outcome": "timeout"}, **extra)
     except CancelledError:
         return {"outcome": "cancelled"}
     except (RetryableError, NonRetryableError) as ex:
+        memo["exc"] = ex
         return dict({"outcome": "raised", "retryable": isinstance(ex, RetryableError), "code": jsonable(ex.code)}, **extra)
     except Exception as ex:  # any other exception class (validation of a typed result, version mismatch …)
+        memo["exc"] = ex
         return dict({"outcome": "exception", "exc": type(ex).__name__}, **extra)
     if hasattr(res, "model_dump"):
         try:
@@ -533,10 +536,15 @@ async def converse(rd, wr, case, obs, server, lo=0, hi=None):
         D_s = x.get("D", case.get("D", 5120)) * vloop.TICK
         if x.get("idle"):
             await anyio.sleep(x["idle"] * vloop.TICK)   # the session sits idle (hours of virtual time), then goes on
+        memo.pop("exc", None)
         obs["outcomes"].append(await call_helper(x["call"], tap, wtap, D_s, memo))
         await anyio.sleep(SETTLE_TICKS * vloop.TICK)
         obs["late"] += tap.drain()
     await settle_end(tap, obs, server)
+    if case.get("escape") and hi is None and memo.get("exc") is not None:
+        # the usual application shape: the exception of the (last) request helper is not caught inside the block
+        obs["escaping"] = describe_exc(memo["exc"])
+        raise memo["exc"]
 
 
 async def settle_end(tap, obs, server):
@@ -553,7 +561,34 @@ async def settle_end(tap, obs, server):
     obs["late"] += tap.drain()
 
 
+def describe_exc(ex):
+    """an exception as the caller of the block sees it (a group of one: its member, marked)"""
+    grouped = False
+    while isinstance(ex, BaseExceptionGroup) and len(ex.exceptions) == 1:
+        ex, grouped = ex.exceptions[0], True
+    d = {"raised": type(ex).__name__}
+    if grouped:
+        d["grouped"] = True
+    if hasattr(ex, "code"):
+        d["code"] = jsonable(getattr(ex, "code"))
+    try:
+        d["text"] = str(ex)[:200]
+    except Exception:  # noqa
+        d["text"] = None
+    return d
+
+
 async def drive(ttype, params, case, obs, server):
+    if not case.get("escape"):
+        return await drive_block(ttype, params, case, obs, server)
+    try:
+        await drive_block(ttype, params, case, obs, server)
+        obs["block"] = {"left": "normally"}
+    except Exception as ex:  # noqa  (BaseExceptionGroup of Exceptions is an Exception subclass: ExceptionGroup)
+        obs["block"] = describe_exc(ex)
+
+
+async def drive_block(ttype, params, case, obs, server):
     """the conversation over one transport type, reached the way the case says: the `*_client`
     context manager (`create_client`), the Transport class (`create_transport`), or — for a case of
     client operations — `MCPClient` / `connect_to_server` over the Transport class"""
